@@ -12,6 +12,7 @@ NONESCAPE_LIBC = PURE_LIBC | MESSAGE_FUNCS | {
     "__builtin_memcpy", "__builtin_memset", "__builtin_strcpy", "__builtin___memcpy_chk", "__builtin_object_size",
     "spiftool_safe_strncpy", "spiftool_safe_strncat", "system", "popen", "getcwd", "realpath", "gethostbyname",
     "inet_addr", "inet_aton", "setsockopt", "pcre_exec", "pcre_compile", "regexec", "regcomp", "va_start", "va_end",
+    "opendir", "chdir", "mkdir", "rmdir", "rename", "chmod", "getenv", "setenv", "atoi", "strtol", "strtoul",
     "dlsym", "dlopen", "spiftool_chomp", "spiftool_downcase_str", "spiftool_upcase_str", "strsep", "strtok",
 }
 
@@ -65,6 +66,104 @@ def value_is_local(e, d):
     return False
 
 
+_CONSUMES = {}
+
+
+def callee_consumes(prog, g, j, depth=0):
+    """May the program function g keep or release what its pointer parameter j points at - store the parameter into storage that
+    outlives the call, free it, or hand it to a function that does?  (spifconf_put_var takes over both strings it is given.)"""
+    key = (g.unit.name, g.name, j)
+    if key in _CONSUMES:
+        return _CONSUMES[key]
+    _CONSUMES[key] = False
+    if g.body is None or j >= len(g.params) or depth > 3:
+        _CONSUMES[key] = g.body is None
+        return _CONSUMES[key]
+    pd = g.params[j]["d"]
+    res = False
+    for x in walk(g.body):
+        if x.get("k") == "assign" and x.get("op") == "=":
+            l = X.strip(x["ch"][0])
+            if not (l.get("k") == "ref" and l.get("rk") in ("local", "param")) and value_is_local(x["ch"][1], pd):
+                res = True
+        elif x.get("k") == "return" and x.get("val") is not None and value_is_local(x["val"], pd):
+            res = True
+        elif x.get("k") == "call":
+            for jj, a in enumerate(x["ch"][1:]):
+                if not value_is_local(a, pd):
+                    continue
+                cn = X.callee_name(x)
+                if release_kind(x) in ("free", "del"):
+                    res = True
+                elif cn in NONESCAPE_LIBC:
+                    continue
+                else:
+                    h = prog.fn(cn) if cn else None
+                    if h is None or h is g or callee_consumes(prog, h, jj, depth + 1):
+                        res = True
+    _CONSUMES[key] = res
+    return res
+
+
+_RET_FRESH = {}
+
+
+def returns_fresh(prog, g, depth=0):
+    """Does the program function g hand its caller a block the caller owns?  Every `return E` with a non-NULL E returns a
+    local all of whose assignments are allocations (malloc family, a constructor, a function with this same summary) or a
+    realloc of that very local.  (spiftool_get_word, spiftool_substr, builtin results ...)"""
+    key = (g.unit.name, g.name)
+    if key in _RET_FRESH:
+        return _RET_FRESH[key]
+    _RET_FRESH[key] = False
+    if g.body is None or depth > 3:
+        return False
+    rets = [x for x in walk(g.body) if x.get("k") == "return" and x.get("val") is not None and not X.is_null_const(x["val"])]
+    if not rets:
+        return False
+    ok = True
+    for r in rets:
+        v = X.strip(r["val"])
+        if v is None or v.get("k") != "ref" or v.get("rk") != "local":
+            ok = False
+            break
+        d = v["d"]
+        defs = []
+        for x in walk(g.body):
+            if x.get("k") == "assign" and X.strip(x["ch"][0]).get("k") == "ref" and X.strip(x["ch"][0]).get("d") == d:
+                defs.append(x["ch"][1] if x.get("op") == "=" else None)
+            elif x.get("k") == "decl":
+                defs += [dc["init"] for dc in x.get("decls", ()) if dc["d"] == d and dc.get("init") is not None]
+        if not defs:
+            ok = False
+            break
+        for e in defs:
+            if e is None:
+                ok = False
+                break
+            if X.is_null_const(e):
+                continue
+            calls = [c for c in X.calls_in(e)]
+            good = False
+            for c in calls:
+                cn = X.callee_name(c) or ""
+                if nullness.fresh_call(c) and not cn.endswith("_init"):
+                    good = True
+                elif cn in ("realloc", "spifmem_realloc") and any(y.get("k") == "ref" and y.get("d") == d for y in walk(c)):
+                    good = True
+                else:
+                    h = prog.fn(cn) if cn else None
+                    if h is not None and h is not g and returns_fresh(prog, h, depth + 1):
+                        good = True
+            if not good:
+                ok = False
+                break
+        if not ok:
+            break
+    _RET_FRESH[key] = ok
+    return ok
+
+
 def leaks(fn, prog, noreturn=("libast_fatal_error",)):
     """[(alloc node, exit node or overwriting node, local name, reason)] — locals holding a fresh allocation that
     some path neither releases, returns nor stores."""
@@ -78,7 +177,12 @@ def leaks(fn, prog, noreturn=("libast_fatal_error",)):
 
     def fresh(e):
         s = X.strip(e)
-        return s is not None and s.get("k") == "call" and nullness.fresh_call(s) and not (X.callee_name(s) or "").endswith("_init")
+        if s is None or s.get("k") != "call":
+            return False
+        if nullness.fresh_call(s) and not (X.callee_name(s) or "").endswith("_init"):
+            return True
+        g_ = prog.fn(X.callee_name(s) or "") if X.callee_name(s) else None
+        return g_ is not None and g_ is not fn and returns_fresh(prog, g_)
 
     def realloc_like(e):
         s = X.strip(e)
@@ -161,8 +265,8 @@ def leaks(fn, prog, noreturn=("libast_fatal_error",)):
                         st.discard(("own", e))
                     elif cn in NONESCAPE_LIBC:
                         pass
-                    elif cn and prog.fn(cn) is not None and j == 0 and not addr:
-                        pass   # method call on the object itself
+                    elif cn and prog.fn(cn) is not None and j == 0 and not addr and not callee_consumes(prog, prog.fn(cn), 0):
+                        pass   # method call on the object itself (the callee neither keeps nor releases it)
                     elif cn is None and X.dispatch_slot(n) not in (None, "del") and j == 0 and not addr:
                         pass   # dispatched method on the object itself
                     else:
